@@ -52,7 +52,7 @@ structure LPkt where
   seq : Nat
   ack : Nat
   payload : Option Bytes
-deriving Repr
+deriving Repr, DecidableEq
 
 /-- `tcp->get_flag(F)` for the single-bit flags; `has_flags(SYN | ACK)` is both bits -/
 def LPkt.fin (p : LPkt) : Bool := p.flags.testBit 0
@@ -71,7 +71,7 @@ structure TStream where
   id : Nat               -- `identifier_`
   synAck : Bool          -- `syn_ack_sent_`
   fin : Bool             -- `fin_sent_`
-deriving Repr
+deriving Repr, DecidableEq
 
 /-- `TCPStream::TCPStream(IP*, TCP*, identifier)` -/
 def TStream.ofSyn (p : LPkt) (id : Nat) : TStream :=
@@ -123,7 +123,7 @@ deriving Repr
 inductive LEv
   | data (t : TStream)
   | fin (t : TStream)
-deriving Repr
+deriving Repr, DecidableEq
 
 /-- the tail of `callback` once the session has been found: `update`, data functor, end functor + erase -/
 def LFollower.deliver (f : LFollower) (k : SInfo) (t : TStream) (p : LPkt) : LFollower × List LEv :=
